@@ -6,7 +6,7 @@ cd /verif
 git -C /repo apply "$patch" || { echo "patch does not apply"; exit 3; }
 ./check "$id" "$tier" > /tmp/seedtest.out 2> /tmp/seedtest.err
 rc=$?
-git -C /repo checkout -- .
+git -C /repo apply -R "$patch"
 grep -E "^VIOLATION|^KNOWN" /tmp/seedtest.out
 grep -E "violated:|INCONCLUSIVE|inconclusive|vacuous|ENCODING|discharged on" /tmp/seedtest.err | head -12
 echo "exit=$rc"
